@@ -22,6 +22,24 @@ import (
 // Limits).  Every payload has a class; a violation's signature is
 // "lexical:<class>".
 
+// lexGroup maps a payload class to the signature group of its root cause: classes that fail for one
+// reason share a signature; every other class is its own group.
+func lexGroup(class string) string {
+	switch {
+	case strings.HasSuffix(class, ":negzero"):
+		return "float:negzero" // formatPrimitive writes integral floats as "%d." of int64(f): the sign of -0 is lost
+	case class == "ip:v4-mapped" || class == "net:v4-mapped":
+		return "addr:v4-mapped"
+	case strings.HasPrefix(class, "typename:") && strings.Contains(" space non-nfc slash quote equals ", " "+strings.TrimPrefix(class, "typename:")+" "):
+		return "typename:needs-quotes" // Formatter.formatType writes named.Name without QuotedTypeName
+	case class == "typename:error" || class == "typename:enum":
+		return "typename:keyword"
+	case strings.HasPrefix(class, "enumsym:") && strings.Contains(" space leading-digit quote empty ", " "+strings.TrimPrefix(class, "enumsym:")+" "):
+		return "enumsym:needs-quotes" // formatValue writes %symbol without quoting
+	}
+	return class
+}
+
 type lexPayload struct {
 	class string
 	typ   zed.Type
@@ -327,21 +345,21 @@ func (e *env) lexicalCheck(vals []zed.Value, class string, pretty int) {
 	conf := &cfg{Scope: "value", Reader: "stream"}
 	texts, err := write(vals, conf, pretty, pretty == 0)
 	if err != nil {
-		c.Violate("lexical:"+class, fmt.Sprintf("formatting a value of class %s fails: %v", class, err), w)
+		c.Violate("lexical:"+lexGroup(class), fmt.Sprintf("formatting a value of class %s fails: %v", class, err), w)
 		return
 	}
 	w.Text = strings.Join(texts, "\n")
 	got, errs := read(texts, "stream")
 	res := outcome(vals, got, errs)
 	if !allOK(res) {
-		c.Violate("lexical:"+class, fmt.Sprintf("ZSON round trip of payload class %s (pretty %d): %s", class, pretty, describe(vals, texts, got, errs, res)), w)
+		c.Violate("lexical:"+lexGroup(class), fmt.Sprintf("ZSON round trip of payload class %s (pretty %d): %s", class, pretty, describe(vals, texts, got, errs, res)), w)
 		return
 	}
 	// each value alone through zson.ParseValue as well
 	for i, t := range texts {
 		v, err := safe(func() (zed.Value, error) { return zson.ParseValue(zed.NewContext(), t) })
 		if err != nil || canon(v) != canon(vals[i]) {
-			c.Violate("lexical:"+class, fmt.Sprintf("ZSON round trip of payload class %s through zson.ParseValue: `%s` gives %v %v", class, t, safeFormat(v), err), w)
+			c.Violate("lexical:"+lexGroup(class), fmt.Sprintf("ZSON round trip of payload class %s through zson.ParseValue: `%s` gives %v %v", class, t, safeFormat(v), err), w)
 			return
 		}
 	}
